@@ -26,4 +26,30 @@ def SolvesDamped (J : DMat α) (lam D R : DVec α) : Prop :=
 /-- `Dᵀ Λ D = Σ_j Λ_j D_j²` -/
 def wsq (lam D : DVec α) : α := DVec.sum (List.zipWith (fun l d => l * d * d) lam D)
 
+/-! ## the diagonal `LM.step` hands to the solver (pass 10)
+
+`A = J_T @ J`; `A.diagonal().clamp_(pg['min'], pg['max'])` once per call; then in EVERY trial of the call
+`A.diagonal().add_(A.diagonal() * pg['damping'])` on the same tensor — the damping accumulates over the rejected trials. -/
+
+/-- `torch.clamp(x, min, max) = min(max(x, min), max)` -/
+def tclamp (lo hi x : α) : α :=
+  let y := if Scalar.lt x lo then lo else x
+  if Scalar.lt hi y then hi else y
+
+/-- `diag(JᵀJ)_j = Σ_i J_ij²` for a matrix given by its rows of width `n` -/
+def diagJtJ (n : Nat) : DMat α → DVec α
+  | r :: J => DVec.add (r.map (fun x => x * x)) (diagJtJ n J)
+  | [] => DVec.zero n
+
+/-- one diagonal entry after the clamp and after the trials whose dampings are `damps` (in order): `d ← d + d·λ` each -/
+def lmDiag (lo hi a : α) (damps : List α) : α :=
+  damps.foldl (fun d lam => d + d * lam) (tclamp lo hi a)
+
+/-- `Λ_j`: what the code has added to `(JᵀJ)_jj` when it calls the solver -/
+def lmShift (lo hi : α) (damps : List α) (a : α) : α := lmDiag lo hi a damps - a
+
+/-- the whole shift vector of a trial: `Λ = diag(A) − diag(JᵀJ)` -/
+def lmShiftVec (n : Nat) (lo hi : α) (damps : List α) (J : DMat α) : DVec α :=
+  (diagJtJ n J).map (lmShift lo hi damps)
+
 end PP.LMLoop
